@@ -290,7 +290,7 @@ pub fn worker(w: &mut Worker) {
     }
 
     // numeric comparison
-    let nums = ["-2", "-1", "0", "1", "1.5", "2", "10", "-1.5", "0.5", "100", "abc", "", "1e3", " 1", "0x10", "1,5"];
+    let nums = ["-2", "-1", "0", "1", "1.5", "2", "10", "-1.5", "0.5", "100", "abc", "", "1e3", " 1", "0x10", "1,5", "-0", "-0.0", "0.0", "00", "1.0"];
     for a in nums {
         for z in nums {
             let (x, y) = (numeric(a), numeric(z));
@@ -422,7 +422,7 @@ pub fn crash_sig(_case: &Value, kind: &str) -> String {
     kind.to_string()
 }
 
-pub const RULE: &str = "every text up to the length bound over {a b SP e-acute emoji} x every needle up to length 2 through length/strlen/is_empty/trim*/uppercase/lowercase/indexof/last_indexof/contains/starts_with/ends_with/equals/eq/concat/replace/split; substring with every index and index pair from -(len+2) to len+2 plus non-numeric junk; less_than/greater_than over a 16x16 number pool; calc over n op m, the same as one argument, and ( n op m ) op2 k with exactly representable results; range over the grid and non-numeric arguments. Oracle: Rust's own string operations in byte units, documented substring semantics (error result for out-of-range, non-boundary or non-numeric indexes; an index equal to the text length is left open), numeric order, exact arithmetic. Non-trivial: multi-byte text, negative/out-of-range/non-numeric index, non-integer number. states = distinct (command, result class, arity); transitions = real command invocations";
+pub const RULE: &str = "every text up to the length bound over {a b SP e-acute emoji} x every needle up to length 2 through length/strlen/is_empty/trim*/uppercase/lowercase/indexof/last_indexof/contains/starts_with/ends_with/equals/eq/concat/replace/split; substring with every index and index pair from -(len+2) to len+2 plus non-numeric junk; less_than/greater_than over a 21x21 number pool (incl. -0, -0.0, 0.0, 00, 1.0); calc over n op m, the same as one argument, and ( n op m ) op2 k with exactly representable results; range over the grid and non-numeric arguments. Oracle: Rust's own string operations in byte units, documented substring semantics (error result for out-of-range, non-boundary or non-numeric indexes; an index equal to the text length is left open), numeric order, exact arithmetic. Non-trivial: multi-byte text, negative/out-of-range/non-numeric index, non-integer number. states = distinct (command, result class, arity); transitions = real command invocations";
 pub const ASSUMPTIONS: &[&str] = &["arguments are handed to the commands as already-bound values (run_instruction), so the parser is not in the loop", "division is only generated where the quotient is exact; number spellings such as 1e3 or ' 1' may be rejected or accepted but never mis-ordered"];
 pub const EXHAUSTIVE: bool = true;
 pub const WALL_CAP_S: (u64, u64) = (50, 1500);
